@@ -496,6 +496,12 @@ class IPAddr6 (_AddrBase):
           raise RuntimeError('IPv4-compatible representation unimplemented')
         if ':' in ip4part:
           raise RuntimeError('Bad address format')
+        quad = ip4part.split('.')
+        if len(quad) != 4 or any(not x or x.strip('0123456789') or len(x) > 3
+                                 or (len(x) > 1 and x[0] == '0') for x in quad):
+          # Exactly four plain decimal numbers -- IPAddr() would also take
+          # inet_aton()'s short, octal and hex forms and trailing junk
+          raise RuntimeError('Bad address format')
         addr += ':0:0'
 
       segs = addr.split(':')
